@@ -4,6 +4,7 @@
 package main
 
 import (
+	"encoding/base64"
 	"encoding/json"
 	"fmt"
 	"os"
@@ -24,6 +25,14 @@ type result struct {
 	Failures []sym.Failure  `json:"failures"`
 	Spurious string         `json:"spurious"`
 	Reached  map[string]int `json:"reached"`
+}
+
+func b64all(in []string) []string {
+	out := make([]string, len(in))
+	for i, s := range in {
+		out[i] = base64.StdEncoding.EncodeToString([]byte(s))
+	}
+	return out
 }
 
 func main() {
@@ -51,7 +60,7 @@ func main() {
 		v := sym.NewNative(sym.DecodeInputs(j.Inputs))
 		v.Params = j.Params
 		v.Run(h)
-		results = append(results, result{Harness: j.Harness, Obs: v.Obs, Failures: v.Failures, Spurious: v.Spurious, Reached: v.Reached})
+		results = append(results, result{Harness: j.Harness, Obs: b64all(v.Obs), Failures: v.Failures, Spurious: v.Spurious, Reached: v.Reached})
 	}
 	out, _ := json.MarshalIndent(results, "", " ")
 	if err := os.WriteFile(os.Args[2], out, 0o644); err != nil {
